@@ -468,7 +468,7 @@ class C19(ShmProp):
     id = 'C19'
     structure = 'memstore'
     cases_per_plan = 600
-    quick_runs = 24
+    quick_runs = 56
     rule = ('case = 2-4 worker tasks, each with its own real MemStore object attached to the one set of shared segments squid created for '
             '`memory_cache_shared on` (map, slice stack, extras, 4-12 pages of 32 KB), each owning private StoreEntry objects; operations: start a '
             'response for one of 1-3 keys (body 3-90 KB, so up to three pages), grow it chunk by chunk through MemStore::write() until '
